@@ -268,6 +268,7 @@ class Program:
         self.classes = {}    # qualname -> ClassInfo
         self.functions = {}  # qualname -> FunctionInfo
         self.all_functions = []  # incl. nested and lambdas
+        self.anchor_log = set()  # functions the rules asked for by name (evidence: what was analysed as an anchor)
         self._load(exclude)
         self._index()
         self._link()
@@ -439,6 +440,11 @@ class Program:
         raise AnalysisError(f"anchor class {qual} not found (candidates: {len(cands)})")
 
     def func(self, qual):
+        r = self._func(qual)
+        self.anchor_log.add(r.qualname)
+        return r
+
+    def _func(self, qual):
         if qual in self.functions:
             return self.functions[qual]
         cands = [f for q, f in self.functions.items() if q.endswith("." + qual)]
@@ -448,7 +454,7 @@ class Program:
 
     def has_func(self, qual):
         try:
-            self.func(qual)
+            self._func(qual)
             return True
         except AnalysisError:
             return False
@@ -460,6 +466,7 @@ class Program:
         r = cls.lookup(name)
         if r is None or r[1] != "method":
             raise AnalysisError(f"anchor method {cls.qualname}.{name} not found")
+        self.anchor_log.add(r[2].qualname)
         return r[2]
 
     def subclasses(self, cls, strict=False):
